@@ -44,6 +44,7 @@ type c18State struct {
 	used          map[string]bool // tables taken by monitors
 	n             int64
 	corrupt       int32 // notifications still to corrupt
+	txnSeq        int64 // transaction ids handed out in update3 notifications
 	echoSwallow   int32 // echo requests still to swallow
 	echoCut       int32 // echo requests still to answer by hanging up
 }
@@ -358,11 +359,38 @@ func newC18State(reconnect bool) *c18State {
 				}
 			}
 		}
-		if m.Dir == "s2c" && strings.HasPrefix(m.Method, "update") && strings.Contains(string(m.Raw), uN1[0]) {
-			if atomic.AddInt32(&s.corrupt, -1) >= 0 {
-				return json.RawMessage(strings.ReplaceAll(string(m.Raw), uN1[0], uu("a", 7)))
+		if m.Dir == "s2c" && strings.HasPrefix(m.Method, "update") {
+			raw := string(m.Raw)
+			changed := false
+			if strings.Contains(raw, uN1[0]) {
+				if atomic.AddInt32(&s.corrupt, -1) >= 0 {
+					raw, changed = strings.ReplaceAll(raw, uN1[0], uu("a", 7)), true
+				} else {
+					atomic.AddInt32(&s.corrupt, 1)
+				}
 			}
-			atomic.AddInt32(&s.corrupt, 1)
+			// an ovsdb-server notifies a monitor_cond_since monitor with update3 (the in-tree server always sends update2)
+			if m.Method == "update2" {
+				var n struct {
+					Params []json.RawMessage `json:"params"`
+				}
+				if json.Unmarshal([]byte(raw), &n) == nil && len(n.Params) == 2 {
+					since := false
+					for _, q := range s.px.Messages() {
+						if q.Dir == "c2s" && q.Method == "monitor_cond_since" && strings.Contains(string(q.Raw), string(n.Params[0])) {
+							since = true
+						}
+					}
+					if since {
+						id := fmt.Sprintf("dddddddd-0000-0000-0000-%012d", atomic.AddInt64(&s.txnSeq, 1))
+						b, _ := json.Marshal(map[string]interface{}{"id": json.RawMessage(m.ID), "method": "update3", "params": []interface{}{n.Params[0], id, n.Params[1]}})
+						return b
+					}
+				}
+			}
+			if changed {
+				return json.RawMessage(raw)
+			}
 		}
 		// what happens to a monitor request is decided by the table it names (no shared flag between overlapping calls):
 		// RW: the server answers with an error; R2: every monitor method is unknown; N3: only monitor_cond_since is unknown
@@ -743,7 +771,7 @@ func c18Run(r *ev.Run, x c18Session) (sawError bool) {
 		return
 	}
 	// and one more call of every kind completes
-	followups := []string{"connected", "schema", "echo", "transact-ok", "monitor-ok", "cancel-unknown", "update-endpoints-same", "disconnect", "connect", "monitor-second", "notification", "get-hit", "list", "close"}
+	followups := []string{"connected", "schema", "echo", "transact-ok", "monitor-ok", "notification", "cancel-ok", "notification", "cancel-unknown", "update-endpoints-same", "disconnect", "connect", "monitor-second", "notification", "get-hit", "list", "close"}
 	if x.Kind == "lockpair" {
 		followups = []string{"echo", "transact-ok", "monitor-ok", "disconnect", "connect", "notification", "get-hit", "close"}
 	}
